@@ -17,7 +17,8 @@ def one_case(ctx, k, adversarial=False, hash_ws=None, monitor=None, pgen=True, s
         spec = SS.gen_spec(rng, root, adversarial=adversarial, dep_dir=dep)
     else:
         spec = dict(spec)
-        spec["env"] = {"variables": {"OUTPUT_PATH": root}}
+        if "env" not in spec:
+            spec["env"] = {"variables": {"OUTPUT_PATH": root}}
     if hash_ws is None:
         hash_ws = rng.random() < 0.3
     rlimit = rng.choice([0, 1, 2, 3])
